@@ -329,6 +329,17 @@ func fingerprint(l []act.SupervisorChild, ok bool, live []gen.PID, nev int, dead
 // quiesce polls until (a) the recorder, Children() and the set of live children did not change for
 // several consecutive polls, (b) every pid listed by Children() is alive and every live child is listed
 // (or the supervisor is gone and no child is alive). Gives up after the deadline and reports the last view.
+// idle: the process sleeps and has nothing in its mailbox (an exit signal on its way to a child, or a child's
+// exit message waiting in the supervisor's mailbox, shows up here)
+func (r *e2eRun) idle(pid gen.PID) bool {
+	info, err := r.node.ProcessInfo(pid)
+	if err != nil {
+		return true // gone
+	}
+	q := info.MailboxQueues
+	return info.State == gen.ProcessStateSleep && q.Main == 0 && q.System == 0 && q.Urgent == 0
+}
+
 func (r *e2eRun) quiesce(deadline time.Duration) ([]act.SupervisorChild, []gen.PID, bool) {
 	end := time.Now().Add(deadline)
 	last := ""
@@ -338,6 +349,12 @@ func (r *e2eRun) quiesce(deadline time.Duration) ([]act.SupervisorChild, []gen.P
 	for time.Now().Before(end) {
 		time.Sleep(pollEvery)
 		r.checkDown()
+		allIdle := r.dead || r.idle(r.sup)
+		for _, p := range r.liveChildren() {
+			if !r.idle(p) {
+				allIdle = false
+			}
+		}
 		var ok bool
 		l, ok = r.children()
 		r.checkDown()
@@ -364,7 +381,7 @@ func (r *e2eRun) quiesce(deadline time.Duration) ([]act.SupervisorChild, []gen.P
 		} else if r.dead {
 			consistent = len(live) == 0
 		}
-		if fp == last && consistent {
+		if fp == last && consistent && allIdle {
 			stable++
 			if stable >= 4 {
 				return l, live, true
